@@ -45,6 +45,7 @@ static inline uint64_t vf_mix(uint64_t h, uint64_t v) {
 /* ---------- reporting ---------- */
 static int vf_fail_count;
 static int vf_fail_fatal = 1;
+static void (*vf_fail_hook)(const char *key, const char *msg);
 static void vf_fail(const char *key, const char *fmt, ...) __attribute__((format(printf, 2, 3)));
 static void vf_fail(const char *key, const char *fmt, ...) {
     va_list ap;
@@ -53,9 +54,10 @@ static void vf_fail(const char *key, const char *fmt, ...) {
     vsnprintf(buf, sizeof(buf), fmt, ap);
     va_end(ap);
     for (char *c = buf; *c; c++) if (*c == '\n') *c = ' ';
+    vf_fail_count++;
+    if (vf_fail_hook) { vf_fail_hook(key, buf); return; }
     printf("FAIL %s | %s\n", key, buf);
     fflush(stdout);
-    vf_fail_count++;
     if (vf_fail_fatal) {
         _exit(1);
     }
